@@ -1,6 +1,6 @@
 #!/bin/bash
 # usage: rfdetail.sh <patch.diff> <PROP>   — run PROP on /repo with the patch applied as overlay; print FAIL lines
-d=$1; P=$2; tmp=$(mktemp -d)
+d=$1; [ -f "$d" ] || d=/verif/refactors/$1/patch.diff; P=$2; tmp=$(mktemp -d)
 files=$(grep -E '^\+\+\+ b/' $d | sed 's#+++ b/##')
 ov=""
 for f in $files; do mkdir -p $tmp/$(dirname $f); [ -f /repo/$f ] && cp /repo/$f $tmp/$f; ov="$ov,/repo/$f=$tmp/$f"; done
